@@ -29,6 +29,7 @@ EXPLANATION = (
     "bound to element j and nothing else changed; what is decided is this table of the compiled control flow over the model, not the behaviour of a running interpreter "
     "(rows the model cannot evaluate are recorded as undecided)."
     " (R11) the same evaluation for the statements with one target name (node type reaches exactly one Identifier; enumerated from the arms of statement()): a define of a name that is "
+    " (R12) validators - functions returning MResult<bool> whose body is a checking loop with an Err exit per mismatch (the schema checks that keep a table append atomic), found by shape - have no `return Ok(..)` in front of that loop."
     "already bound (immutably / mutably) and an assignment / op-assignment to an undefined or immutable name return Err and leave the model symbol table and the content of the "
     "existing cell unchanged, for every value of the statement's bool flags; a define of a free name returns Ok with exactly that name bound, mutable iff the statement says so "
     "(function compilers are assumed to succeed). Decided is the compiled control flow over the model, not a running interpreter."
@@ -161,6 +162,8 @@ def run(F, rep, tier):
             if c_ and insert_fn and reaches_insert(c_[0])[0]:
                 binders.add(v_)           # the define-family statements that bind VARIABLES (kind / enum definitions never reach the symbol table)
     _table.update(c05_table.run(F, rep, cg, arms, binders, REENTRY, [CORE, INTERP], assign=ASSIGN))
+    from rules import c05_validators
+    c05_validators.run(F, rep)   # R12: no success exit in front of a validator's checking loop
     for v, fn in sorted(arms.items()):
         full = "mech_interpreter::statements::%s" % fn
         if full not in cg.bodies:
